@@ -29,6 +29,8 @@ import CookModel.Lemmas.RoundtripModes
 import CookModel.Lemmas.RoundtripModes2
 import CookModel.Lemmas.RoundtripModes3
 import CookModel.Lemmas.RoundtripDocModes
+import CookModel.Lemmas.RoundtripDocTight
+import CookModel.Lemmas.RoundtripRefsUnits
 /-
   C01  Printing a recipe as Cooklang and parsing it returns that recipe.
 
@@ -2203,6 +2205,270 @@ example : yOKB (α := Rat) C01_allModesEnv .all .new {} [] ⟨none, []⟩ 1
     yOKB (α := Rat) C01_allModesEnv .all .new {} [] ⟨none, []⟩ 1
     [.duplicate .reference, .step [.ingr none (absIngr { name := [tk .word "salt".toList] })],
      .step [.ingr none (absIngr { mods := [.and], name := [tk .word "salt".toList] })]] = false := by decide
+
+
+-- ===== w6c01rest =====
+
+/-! ### tight separators: a `>>` / `=` line directly followed by the next block -/
+
+/-- The block splitter with TIGHT separators (`docOKT`): as `C01_blocks_split`, but between two blocks ONE newline
+    token is enough when the first block is a single `>>` / `=` line (`pull_line`'s single-line rule: such a
+    line is a block of its own, whatever follows) or when the second one is (the continuation loop of
+    `next_block` stops before a line that starts with `>>` or `=`).  Only between two multi-line blocks a blank
+    line is still required (there a single newline is a soft break inside one step). -/
+theorem C01_blocks_split_tight (pre : List Tok) (ds : List (List Tok × List Tok)) (hpre : blankLinesOK pre = true)
+    (h : docOKT ds = true) :
+    allBlocks ((pre ++ docToks ds).length + 1) (pre ++ docToks ds) = ds.map (·.1) :=
+  rtdt_allBlocks_doc ds h pre (rtd_blankLinesOK_facts pre hpre)
+
+/-- the separators of the earlier theorems (a blank line after every block, `sepsOK`) are a special case of the
+    tight ones (`sepsOKT` over `docSeps`: each block's `isLine` flag — `>>` line or section line — with what
+    follows the block) -/
+theorem C01_separators_tight_general (doc : List (DocItem × List Tok)) (h : sepsOK (doc.map (·.2)) = true) :
+    sepsOKT (docSeps doc) = true :=
+  rtdt_sepsOK_sepsOKT doc h
+
+/-- `C01_input_blocks` with tight separators: the same hypotheses and the same conclusion (one block per item,
+    the events of the items concatenated, no error, no warning, no panic), the condition on the separators
+    weakened from `sepsOK` to `sepsOKT (docSeps doc)`: after a `>>` line or a section line, and before one, a
+    single newline suffices; a blank line (or more, with blanks and comments) is allowed everywhere and required
+    only between two multi-line blocks (step / paragraph followed by step / paragraph). -/
+theorem C01_input_blocks_tight {α : Type} [Arith α] (cs : CharSpec) (ext : Ext) (pre : List Tok)
+    (doc : List (DocItem × List Tok)) (hpre : blankLinesOK pre = true)
+    (hok : ∀ d ∈ doc, d.1.ok cs ext = true) (hseps : sepsOKT (docSeps doc) = true)
+    (hw : WellSpelled cs (pre ++ docSpec doc))
+    (hfm : parseFrontmatter cs (render (pre ++ docSpec doc)) = none) :
+    ∃ (blocks : List (List Tok)) (evss : List (List (Ev α))) (arr : Array (Ev α)),
+      allBlocks ((lex cs (render (pre ++ docSpec doc))).length + 1) (lex cs (render (pre ++ docSpec doc))) = blocks ∧
+      All2 (fun b (d : DocItem × List Tok) => Spells b d.1.spell) blocks doc ∧
+      pullEvents (α := α) cs ext (render (pre ++ docSpec doc)) = (arr, none) ∧
+      arr.toList = evss.flatten ∧
+      All2 (fun (d : DocItem × List Tok) evs => DocItemEvs cs d.1 evs) doc evss :=
+  rtdt_pullEvents_doc cs ext pre doc hpre hok hseps hw hfm
+
+/-- `C01_recipe_doc` (documents of steps, sections, `>>` entries, paragraphs, plain definitions) with tight
+    separators: same conclusion. -/
+theorem C01_recipe_doc_tight {α : Type} [Arith α] (env : Env) (pre : List Tok) (doc : List (DocItem × List Tok))
+    (hpre : blankLinesOK pre = true) (hok : ∀ d ∈ doc, d.1.ok env.cs env.ext = true)
+    (hsimple : ∀ d ∈ doc, d.1.simple = true) (hplain : ∀ d ∈ doc, d.1.plain env)
+    (hext : ∀ d ∈ doc, d.1.extOK α env)
+    (hseps : sepsOKT (docSeps doc) = true) (hw : WellSpelled env.cs (pre ++ docSpec doc))
+    (hfm : parseFrontmatter env.cs (render (pre ++ docSpec doc)) = none) :
+    ∃ (c : Col α) (spans : List Span),
+      parseRecipe env (render (pre ++ docSpec doc)) = ⟨some c, c.diags, none⟩ ∧
+      c.sections = absDocSecs [] ⟨none, []⟩ 1 (doc.map (·.1)) ∧
+      c.ingredients.toList = ((absDocSegs (doc.map (·.1))).filterMap SegX.ingr?).map absIngr ∧
+      c.cookware.toList = ((absDocSegs (doc.map (·.1))).filterMap SegX.cw?).map absCw ∧
+      c.timers.toList = ((absDocSegs (doc.map (·.1))).filterMap SegX.timer?).map absTimer ∧
+      c.metaMap = absDocMeta [] (doc.map (·.1)) ∧
+      c.diags = deprecation spans ∧ spans.length = ((doc.map (·.1)).filter DocItem.isMeta).length ∧
+      c.inlineQ = #[] ∧ c.frontMatter = none :=
+  rtdt_parseRecipe_doc env pre doc hpre hok hsimple hplain hext hseps hw hfm
+
+/-- `C01_recipe_doc_refs` (documents with `&` references and intermediate references) with tight separators:
+    same conclusion. -/
+theorem C01_recipe_doc_refs_tight {α : Type} [Arith α] (env : Env) (pre : List Tok) (doc : List (DocItem × List Tok))
+    (hpre : blankLinesOK pre = true) (hok : ∀ d ∈ doc, d.1.ok env.cs env.ext = true)
+    (hlock : ∀ d ∈ doc, d.1.lockOK = true) (hplain : ∀ d ∈ doc, d.1.plain env)
+    (hext : ∀ d ∈ doc, d.1.extOK α env)
+    (hrefs : xOK (α := α) env {} [] ⟨none, []⟩ 1 (doc.map (fun d => d.1.x)))
+    (hseps : sepsOKT (docSeps doc) = true) (hw : WellSpelled env.cs (pre ++ docSpec doc))
+    (hfm : parseFrontmatter env.cs (render (pre ++ docSpec doc)) = none) :
+    ∃ (c : Col α) (spans : List Span),
+      parseRecipe env (render (pre ++ docSpec doc)) = ⟨some c, c.diags, none⟩ ∧
+      c.sections = (xRun (α := α) env {} [] ⟨none, []⟩ 1 [] (doc.map (fun d => d.1.x))).secs ∧
+      c.ingredients = (xRun (α := α) env {} [] ⟨none, []⟩ 1 [] (doc.map (fun d => d.1.x))).T.ing ∧
+      c.cookware = (xRun (α := α) env {} [] ⟨none, []⟩ 1 [] (doc.map (fun d => d.1.x))).T.cw ∧
+      c.timers = (xRun (α := α) env {} [] ⟨none, []⟩ 1 [] (doc.map (fun d => d.1.x))).T.tm ∧
+      c.metaMap = (xRun (α := α) env {} [] ⟨none, []⟩ 1 [] (doc.map (fun d => d.1.x))).metaMap ∧
+      c.diags = deprecation spans ∧ spans.length = ((doc.map (·.1)).filter DocItem.isMeta).length ∧
+      c.inlineQ = #[] ∧ c.frontMatter = none :=
+  rtdt_parseRecipe_doc_refs env pre doc hpre hok hlock hplain hext hrefs hseps hw hfm
+
+/-- `C01_recipe_doc_modes` (documents with mode switches) with tight separators: a switch line may be written
+    directly above and below its neighbours, as recipes usually do.  Same conclusion. -/
+theorem C01_recipe_doc_modes_tight {α : Type} [Arith α] (env : Env) (pre : List Tok) (doc : List (DocItem × List Tok))
+    (hpre : blankLinesOK pre = true) (hok : ∀ d ∈ doc, d.1.ok env.cs env.ext = true)
+    (hside : docSideOK α env .all (doc.map (·.1)))
+    (hrefs : yOKB (α := α) env .all .new {} [] ⟨none, []⟩ 1 (doc.map (fun d => d.1.y env)) = true)
+    (hseps : sepsOKT (docSeps doc) = true) (hw : WellSpelled env.cs (pre ++ docSpec doc))
+    (hfm : parseFrontmatter env.cs (render (pre ++ docSpec doc)) = none) :
+    ∃ (c : Col α) (spans : List Span),
+      parseRecipe env (render (pre ++ docSpec doc)) = ⟨some c, c.diags, none⟩ ∧
+      c.sections = (yRun (α := α) env .all .new {} [] ⟨none, []⟩ 1 [] (doc.map (fun d => d.1.y env))).secs ∧
+      c.ingredients = (yRun (α := α) env .all .new {} [] ⟨none, []⟩ 1 [] (doc.map (fun d => d.1.y env))).T.ing ∧
+      c.cookware = (yRun (α := α) env .all .new {} [] ⟨none, []⟩ 1 [] (doc.map (fun d => d.1.y env))).T.cw ∧
+      c.timers = (yRun (α := α) env .all .new {} [] ⟨none, []⟩ 1 [] (doc.map (fun d => d.1.y env))).T.tm ∧
+      c.metaMap = (yRun (α := α) env .all .new {} [] ⟨none, []⟩ 1 [] (doc.map (fun d => d.1.y env))).metaMap ∧
+      c.diags = deprecation spans ∧
+      spans.length = ((doc.map (·.1)).filter (DocItem.isEntry α env)).length ∧
+      c.inlineQ = #[] ∧ c.frontMatter = none :=
+  rtdt_parseRecipe_doc_modes env pre doc hpre hok hside hrefs hseps hw hfm
+
+/-! example: the document of `C01_exModesDoc` written tight — every `>>` line directly above / below its
+    neighbours; the only blank line left is the one between the two steps `Mix …` / `Add …`. -/
+def C01_exModesDocTight : List (DocItem × List Tok) :=
+  List.zipWith (fun d s => (d.1, s)) C01_exModesDoc
+    [[C01_nl], [C01_nl, C01_nl], [C01_nl], [C01_nl], [C01_nl], [C01_nl], [C01_nl], [C01_nl], [C01_nl], [C01_nl],
+     [C01_nl], [C01_nl]]
+
+set_option maxRecDepth 8000 in
+example : String.ofList (render (docSpec C01_exModesDocTight)) =
+    ">> [duplicate]: ref\nMix @flour{200%g} in #bowl{}.\n\nAdd @flour{50%g} to #bowl{}.\n>> [mode]: text\nRest well.\n>> [duplicate]: default\n>> [define]: ingredients\n@salt{}\n>> [mode]: steps\nSeason with @salt{} and @flour{}.\n>> [mode]: all\n>> source: me\n" := by
+  decide
+example : C01_exModesDocTight.map (·.1) = C01_exModesDoc.map (·.1) := rfl
+example : (∀ d ∈ C01_exModesDocTight, d.1.ok C01_allModesEnv.cs C01_allModesEnv.ext = true) ∧
+    sepsOKT (docSeps C01_exModesDocTight) = true ∧ sepsOK (C01_exModesDocTight.map (·.2)) = false := by decide
+set_option maxRecDepth 8000 in
+example : WellSpelled toyCharSpec (docSpec C01_exModesDocTight) := by decide
+set_option maxRecDepth 8000 in
+example : (parseFrontmatter toyCharSpec (render (docSpec C01_exModesDocTight))).isNone = true := by decide
+example : docSideOK Rat C01_allModesEnv .all (C01_exModesDocTight.map (·.1)) :=
+  C01_mode_side_conditions_check _ (C01_ext_conditions_vacuous _ (by decide) (by decide)) _ _ (by decide)
+example : yOKB (α := Rat) C01_allModesEnv .all .new {} [] ⟨none, []⟩ 1
+    (C01_exModesDocTight.map (fun d => d.1.y C01_allModesEnv)) = true := by decide
+/-- the condition is needed: two steps with a single newline between them are ONE step (soft break); a blank
+    line is required there and only there -/
+example : sepsOKT [(false, [C01_nl]), (false, [])] = false ∧ sepsOKT [(true, [C01_nl]), (false, [])] = true ∧
+    sepsOKT [(false, [C01_nl]), (true, [])] = true ∧ sepsOKT [(false, [C01_nl, C01_nl]), (false, [])] = true := by decide
+/-- on tokens: `>> a: b` / newline / `x` are two blocks; `x` / newline / `= s` are two blocks -/
+example : allBlocks 10 [⟨.metaStart, ['>', '>'], 0⟩, ⟨.word, ['a'], 2⟩, ⟨.colon, [':'], 3⟩, ⟨.word, ['b'], 4⟩,
+      ⟨.newline, ['\n'], 5⟩, ⟨.word, ['x'], 6⟩] =
+    [[⟨.metaStart, ['>', '>'], 0⟩, ⟨.word, ['a'], 2⟩, ⟨.colon, [':'], 3⟩, ⟨.word, ['b'], 4⟩], [⟨.word, ['x'], 6⟩]] := by
+  decide
+example : allBlocks 10 [⟨.word, ['x'], 0⟩, ⟨.newline, ['\n'], 1⟩, ⟨.eq, ['='], 2⟩, ⟨.word, ['s'], 3⟩] =
+    [[⟨.word, ['x'], 0⟩], [⟨.eq, ['='], 2⟩, ⟨.word, ['s'], 3⟩]] := by decide
+
+
+/-! ### ADVANCED_UNITS together with ingredient references (per event) -/
+
+/-- **What `compatible_unit` accepts.**  The unit loop of `ingredient()` (ADVANCED_UNITS) stays quiet for a pair of
+    units exactly when: both amounts are without unit; or both have one and — when the converter knows both —
+    they measure the same physical quantity, or — when it does not know one of them — they are spelled the
+    same.  (One side with a unit and the other without is reported.) -/
+theorem C01_units_agree_spec (env : Env) (a b : Option Str) :
+    unitsAgreeB env a b = true ↔
+      (a = none ∧ b = none) ∨
+      ∃ x y, a = some x ∧ b = some y ∧
+        ((∃ qa qb, env.findUnit x = some qa ∧ env.findUnit y = some qb ∧ qa = qb) ∨
+         ((env.findUnit x = none ∨ env.findUnit y = none) ∧ x = y)) := by
+  unfold unitsAgreeB compatibleUnit
+  cases a with
+  | none => cases b <;> simp
+  | some x =>
+    cases b with
+    | none => simp
+    | some y =>
+      cases hx : env.findUnit x <;> cases hy : env.findUnit y <;> simp [hx, hy]
+
+/-- **The checks of a reference are quiet under every extension set** when `RefChecksQuietU` holds: no note on
+    the reference; not an amount on both sides when the definition was made outside a step; both amounts text or
+    both not; and — only with ADVANCED_UNITS and only when the reference carries an amount — `unitsQuietB`: the
+    definition `t` and every earlier reference to it (`rf`, its `referenced_from` list) is in the table and, if
+    it carries an amount, agrees in unit with the new reference (`C01_units_agree_spec`).  Then
+    `ingrRefChecks` reports nothing and leaves the state alone.  (`RefChecksQuiet`, the condition of the earlier
+    theorems, is the case "extension off": `rtu_quiet_of_off`.) -/
+theorem C01_reference_checks_quiet_any_ext {α : Type} [Arith α] (env : Env) (input : Str) (li : Loc (PIngredient α))
+    (igr : Ingredient (ScalableValue α)) (t : Nat) (defn : Ingredient (ScalableValue α)) (defLoc : Loc (PIngredient α))
+    (rf : List Nat) (b : Bool) (tg : Option RefTarget) (s : Col α) (hrel : defn.relation = ⟨.definition rf b, tg⟩)
+    (hq : RefChecksQuietU env li igr.quantity defn b t rf s) :
+    ingrRefChecks env input li igr t defn defLoc s = ((), s) :=
+  rtu_ingrRefChecks env input li igr t defn defLoc rf b tg s hrel hq
+
+/-- **An ingredient that becomes a reference, in every mode AND under every extension set** (generalises
+    `C01_reference_event_any_mode`, whose `RefChecksQuiet` asks for ADVANCED_UNITS to be off): same hypotheses
+    with `RefChecksQuietU`, same conclusion — the reference `asReference …` is appended, the definition lists the
+    new index back, the step gets the item, NOTHING is reported. -/
+theorem C01_reference_event_any_ext {α : Type} [Arith α] (env : Env) (input : Str) (li : Loc (PIngredient α))
+    (s : Col α) (items : List Item) (t : Nat) (defn : Ingredient (ScalableValue α)) (defLoc : Loc (PIngredient α))
+    (rf : List Nat) (b : Bool) (tg : Option RefTarget) (hb : s.block = some (.step items))
+    (hinter : li.val.inter = none) (hlock : ∀ q, li.val.quantity = some q → lockOK q.val.value true)
+    (hNEW : li.val.modifiers.val.contains Modifiers.NEW = false)
+    (htreat : li.val.modifiers.val.contains Modifiers.REF = true ∨ s.defineMode = .steps ∨
+      s.duplicateMode = .reference)
+    (hquiet : li.val.modifiers.val.contains Modifiers.REF = true → s.defineMode ≠ .steps ∧ s.duplicateMode = .new)
+    (hfound : sameNameIdx env (s.ingredients.toList.map (fun x => (x.name, x.modifiers))) (ingrOf env li).name = some t)
+    (hdefn : s.ingredients[t]? = some defn) (hloc : s.locIngr[t]? = some defLoc)
+    (hrel : defn.relation = ⟨.definition rf b, tg⟩)
+    (hconf : refConflict li.val.modifiers.val
+      ⟨defn.modifiers.bits &&& (Modifiers.HIDDEN ||| Modifiers.OPT ||| Modifiers.RECIPE)⟩ = 0)
+    (hq : RefChecksQuietU env li (ingrOf env li).quantity defn b t rf s) :
+    (processEvent env input (.ingredient li) s).2 =
+      { s with
+        locIngr := s.locIngr.push li,
+        ingredients := (s.ingredients.setIfInBounds t (backlinked defn rf s.ingredients.size b tg)).push
+          (asReference (ingrOf env li) defn.modifiers t),
+        block := some (.step (items ++ [.ingredient s.ingredients.size])) } :=
+  rtu_proc_ingredient_ref env input li s items t defn defLoc rf b tg hb hinter hlock hNEW htreat hquiet hfound hdefn
+    hloc hrel hconf hq
+
+/-- **The side condition is decidable on the table.**  `ingrTargetOKUB env tbl igr0` (computable: the name has an
+    earlier non-REF definition, the last one; it is a definition; no conflicting modifier; amounts as above; with
+    ADVANCED_UNITS the unit check `unitsQuietB` against the definition and its earlier references) implies, in a
+    state whose ingredient table is `tbl` and whose location array has the same length, every table-side
+    hypothesis of `C01_reference_event_any_ext`. -/
+theorem C01_reference_units_check {α : Type} [Arith α] (env : Env) (li : Loc (PIngredient α))
+    (igr0 : Ingredient (ScalableValue α)) (s : Col α)
+    (hsize : s.locIngr.size = s.ingredients.size) (hnote : li.val.note = none)
+    (h : ingrTargetOKUB env s.ingredients igr0 = true) :
+    ∃ t defn rf b tg,
+      sameNameIdx env (s.ingredients.toList.map (fun x => (x.name, x.modifiers))) igr0.name = some t ∧
+      s.ingredients[t]? = some defn ∧ defn.relation = ⟨.definition rf b, tg⟩ ∧
+      refConflict igr0.modifiers
+        ⟨defn.modifiers.bits &&& (Modifiers.HIDDEN ||| Modifiers.OPT ||| Modifiers.RECIPE)⟩ = 0 ∧
+      RefChecksQuietU env li igr0.quantity defn b t rf s :=
+  rtu_ingrTargetOKUB env li igr0 s hsize hnote h
+
+/-- with ADVANCED_UNITS off the check is the one `yOKB` / `C01_recipe_doc_modes` use (`ingrTargetOKB`) -/
+theorem C01_reference_units_check_off {α : Type} [Arith α] (env : Env) (tbl : Array (Ingredient (ScalableValue α)))
+    (igr0 : Ingredient (ScalableValue α)) (hoff : env.ext.has Gen.EXT_ADVANCED_UNITS = false) :
+    ingrTargetOKUB env tbl igr0 = ingrTargetOKB env tbl igr0 :=
+  rtu_ingrTargetOKUB_off env tbl igr0 hoff
+
+/-! example, ADVANCED_UNITS + MODIFIERS on, a converter that knows `tsp`, `tbsp` (volume, 1) and `g` (mass, 2):
+    after the definition `@salt{=1%tsp}` the reference `@&salt{2%tbsp}` passes the check and is analysed
+    quietly; `@&salt{2%g}` fails it and the code warns `incompatible-units`; `@&salt{2%pinch}` (unknown to the
+    converter, spelled differently) fails as well. -/
+def C01_unitsEnv : Env :=
+  ⟨toyCharSpec, ⟨Gen.EXT_ADVANCED_UNITS ||| Gen.EXT_COMPONENT_MODIFIERS⟩,
+   fun u => if u = "tsp".toList ∨ u = "tbsp".toList then some 1 else if u = "g".toList then some 2 else none,
+   fun _ _ => .ok, fun c => [c], 4⟩
+def C01_exSaltRefQ (u : String) : Loc (PIngredient Rat) :=
+  ⟨⟨⟨⟨Modifiers.REF⟩, ⟨21, 22⟩⟩, none, C01_txt "salt" 22, none,
+    some ⟨⟨⟨⟨.number (.regular 2), ⟨27, 28⟩⟩, none⟩, some (C01_txt u 29)⟩, ⟨27, 34⟩⟩, none⟩, ⟨20, 35⟩⟩
+example : C01_unitsEnv.ext.has Gen.EXT_ADVANCED_UNITS = true := by decide
+example : unitsAgreeB C01_unitsEnv (some "tsp".toList) (some "tbsp".toList) = true ∧
+    unitsAgreeB C01_unitsEnv (some "tsp".toList) (some "g".toList) = false ∧
+    unitsAgreeB C01_unitsEnv (some "tsp".toList) (some "pinch".toList) = false ∧
+    unitsAgreeB C01_unitsEnv (some "pinch".toList) (some "pinch".toList) = true ∧
+    unitsAgreeB C01_unitsEnv (some "tsp".toList) none = false ∧ unitsAgreeB C01_unitsEnv none none = true := by decide
+example : ingrTargetOKUB C01_unitsEnv C01_exAfterDef.ingredients (ingrOf C01_unitsEnv (C01_exSaltRefQ "tbsp")) = true ∧
+    ingrTargetOKUB C01_unitsEnv C01_exAfterDef.ingredients (ingrOf C01_unitsEnv (C01_exSaltRefQ "g")) = false ∧
+    ingrTargetOKUB C01_unitsEnv C01_exAfterDef.ingredients (ingrOf C01_unitsEnv (C01_exSaltRefQ "pinch")) = false ∧
+    ingrTargetOKUB C01_unitsEnv C01_exAfterDef.ingredients (ingrOf C01_unitsEnv C01_exSaltRef) = true := by decide
+example : C01_exAfterDef.locIngr.size = C01_exAfterDef.ingredients.size ∧ (C01_exSaltRefQ "tbsp").val.note = none :=
+  ⟨rfl, rfl⟩
+/-- the model of the real code agrees: quiet for `tbsp`, one warning for `g` -/
+example : ((processEvent C01_unitsEnv [] (.ingredient (C01_exSaltRefQ "tbsp")) C01_exAfterDef).2.diags.toList.map (·.kind),
+    (processEvent C01_unitsEnv [] (.ingredient (C01_exSaltRefQ "g")) C01_exAfterDef).2.diags.toList.map (·.kind)) =
+    ([], ["incompatible-units"]) := by rfl
+
+
+/-! check (task item 4): a timer with a name AND an amount, an ingredient with modifiers, alias, amount and note are
+    inside the document-level theorems — `SegX.simple` / `SegX.lockOK` do not exclude them, and the intended table
+    entries carry all the parts (`C01_exComp` is also a segment of `C01_exFullDoc`) -/
+def C01_exTimerNQ : ATimer := { C01_exTimer with qty := C01_exTimerAnon.qty }
+example : (SegX.timer C01_exTimerNQ {}).simple = true ∧ (SegX.timer C01_exTimerNQ {}).lockOK = true ∧
+    (SegX.ingredient C01_exComp C01_exCPad).simple = true ∧ (SegX.ingredient C01_exComp C01_exCPad).lockOK = true ∧
+    C01_exTimerNQ.wf toyCharSpec C01_timerExt = true := by
+  decide
+/-- a scaling lock on a timer amount is reported by the code (`unnecessary-scaling-lock`): rightly excluded -/
+example : (SegX.timer C01_exTimer {}).lockOK = false := by decide
+example : (absTimer (α := Rat) C01_exTimerNQ).name = some "soft boil".toList ∧
+    (absTimer (α := Rat) C01_exTimerNQ).quantity.isSome = true ∧
+    (absIngr (α := Rat) C01_exComp).alias = some "EVOO".toList ∧
+    (absIngr (α := Rat) C01_exComp).note = some "cold pressed".toList ∧
+    (absIngr (α := Rat) C01_exComp).quantity.isSome = true := by decide
 
 
 end Cook
